@@ -195,7 +195,7 @@ def jobs(tier):
         kb = ENTRIES[b].split(':')[0].split('(')[0].replace('get ', '').replace('async ', '').strip("'[] ")
         if ka == kb:
             continue
-        if tier == 'quick' and (hash((a, b)) % 5):
+        if tier == 'quick' and (common.stable_hash((a, b)) % 5):
             continue
         out.append({'entries': [a, b]})
     out.append({'entries': ['lit', 'num', 'fnarrow', 'quoted', 'method', 'amethod', 'extra']})
